@@ -240,6 +240,30 @@ def run_shard(spec):
                 sh.tally("runs", "empty_selection")
                 judge(sh, [], [], "dir", run, {"mode": "cli", "argv": ["--no-colors", "."], "files": {"README.md": "x\n", "a.cc": "int x;\n"},
                                                "classes": []}, {})
+                # ... under each option, with and without an argument, inside and outside a git work tree
+                import subprocess
+                e1 = os.path.join(d, "e1")
+                e2 = os.path.join(d, "e2", "sub")
+                os.makedirs(e1)
+                os.makedirs(e2)
+                with open(os.path.join(e2, "notes.txt"), "w") as f:
+                    f.write("x\n")
+                subprocess.run(["git", "init", "-q", e1], capture_output=True)
+                for cwd, tag in ((e1, "git"), (os.path.join(d, "e2"), "plain")):
+                    for opts in ([], ["-f", "json"], ["-o"], ["-d"], ["-dd"], ["--use-gitignore"], ["-R", "CheckDefine"],
+                                 ["--use-gitignore", "-f", "json"]):
+                        for args in ([], ["."], ["sub"] if tag == "plain" else ["./"]):
+                            argv = ["--no-colors"] + opts + args
+                            run = cliobs.run_cli(argv, cwd=cwd)
+                            sh.case("empty\0" + tag + "\0" + " ".join(argv))
+                            sh.tally("runs", "empty_selection")
+                            case = {"mode": "empty", "argv": argv, "git": tag == "git", "classes": []}
+                            sh.count("c04.empty_selection_ends_cleanly")
+                            if run.timeout:
+                                sh.inconclusive.append("CLI run exceeded the wall-clock watchdog")
+                            elif run.traceback() or run.rc != 0:
+                                sh.violation("empty_selection", (tag, " ".join(opts), "traceback" if run.traceback() else "rc=%s" % run.rc),
+                                             case, {"rc": run.rc, "stderr_tail": run.stderr[-300:], "stdout_tail": run.stdout[-200:]})
             shutil.rmtree(d, ignore_errors=True)
         # independence from the number of files: large runs around the 8-bit width of an exit status
         counts = [c for i, c in enumerate([255, 256, 257, 512, 128, 300]) if i % spec["nshards"] == spec["shard"]]
@@ -283,6 +307,18 @@ def replay(case, sh):
             if (run.rc == 0) != (case["cls"] == "clean"):
                 sh.violation("exit_status_many_files", ("replay",), case, {"rc": run.rc})
             return
+        if case.get("mode") == "empty":
+            import subprocess
+            os.makedirs(os.path.join(tmp, "sub"))
+            with open(os.path.join(tmp, "sub", "notes.txt"), "w") as f:
+                f.write("x\n")
+            if case.get("git"):
+                subprocess.run(["git", "init", "-q", tmp], capture_output=True)
+            run = cliobs.run_cli(case["argv"], cwd=tmp)
+            sh.evaluations += 1
+            if run.traceback() or run.rc != 0:
+                sh.violation("empty_selection", ("replay",), case, {"rc": run.rc})
+            return
         for n, t in case["files"].items():
             with open(os.path.join(tmp, n), "w") as f:
                 f.write(t)
@@ -303,7 +339,7 @@ def replay(case, sh):
 def finish(merged, tier, seed):
     a = merged["asserts"]
     inc = []
-    for k, floor in (("c04.exit_status_iff_all_ok", 150), ("c04.fatal_named_and_nonzero", 150), ("c04.no_traceback", 600)):
+    for k, floor in (("c04.exit_status_iff_all_ok", 150), ("c04.fatal_named_and_nonzero", 150), ("c04.no_traceback", 600), ("c04.empty_selection_ends_cleanly", 40)):
         if a.get(k, 0) < floor:
             inc.append("%s evaluated only %d times" % (k, a.get(k, 0)))
     return {"inconclusive": inc, "exhaustive": False,
